@@ -19,6 +19,12 @@ class _Top:
         return 'TOP'
 TOP = _Top()
 
+class _NonZero:
+    """an unknown positive counter value (a loop counter after at least one increment; 32-bit wrap-around is not modelled)"""
+    def __repr__(self):
+        return 'NZ'
+NZ = _NonZero()
+
 Ptr = namedtuple('Ptr', 'base path')
 # Expr: ('e', sym, tree); tree: ('s',) | int | ('b', op, w, L, R) | ('c', pred, w, L, R) | ('z', kind, w, X) | ('sel', C, A, B)
 
@@ -145,6 +151,7 @@ class Record:
         self.stack = state.stack()
         self.calls = state.pcalls + tuple(f.call for f in state.frames)
         self.ghost = dict(state.ghost)
+        self.entry = None
         self.__dict__.update(kw)
     def site(self, wrappers=()):
         """the instruction at source level: for an atomic inside an atm_cas_* wrapper, the call to the wrapper"""
@@ -560,7 +567,13 @@ class Engine:
         regs = f.regs
         if op in ('add', 'sub', 'mul', 'and', 'or', 'xor', 'shl', 'lshr', 'ashr', 'udiv', 'urem', 'sdiv', 'srem'):
             a, b = self.val(f, inst.ops[0]), self.val(f, inst.ops[1])
-            if inst.id in self.liveness(f.fn).induction and isinstance(a, int) and isinstance(b, int):
+            if inst.id in self.liveness(f.fn).induction and (isinstance(a, int) or a is NZ) and (isinstance(b, int) or b is NZ):
+                # loop counter: keep only "positive" when it is incremented from a non-negative value
+                w = width_of(inst.ty) or 32
+                pos = lambda x: x is NZ or (isinstance(x, int) and 0 < x < (1 << (w - 1)))
+                nonneg = lambda x: x is NZ or (isinstance(x, int) and x < (1 << (w - 1)))
+                regs[inst.id] = NZ if op == 'add' and ((pos(a) and nonneg(b)) or (pos(b) and nonneg(a))) else TOP
+            elif a is NZ or b is NZ:
                 regs[inst.id] = TOP
             else:
                 regs[inst.id] = self.do_binop(op, width_of(inst.ty), a, b, inst)
@@ -685,6 +698,15 @@ class Engine:
         if isinstance(a, int) and isinstance(b, int):
             regs[inst.id] = icmp(pred, w, a, b)
             return None
+        if a is NZ or b is NZ:
+            o = b if a is NZ else a
+            if o == 0 and pred in ('eq', 'ne'):
+                regs[inst.id] = int(pred == 'ne')
+            elif o == 0 and pred in ('ugt', 'ult'):
+                regs[inst.id] = int((pred == 'ugt') == (a is NZ))
+            else:
+                regs[inst.id] = TOP
+            return None
         ea, eb = is_expr(a), is_expr(b)
         if (ea or isinstance(a, int)) and (eb or isinstance(b, int)):
             if ea and eb and a[1] != b[1]:
@@ -797,7 +819,7 @@ class Engine:
                 self.kill_sym(st, sym)
                 st.S[sym] = self.universe(wc, hold, spin)
                 regs[inst.id] = ('e', sym, ('s',))
-                self.record(Record('wordload', inst, st, wc=wc, instance=instance, ord=inst.ord), ('wl', inst.fn.name, inst.id, st.stack()))
+                self.record(Record('wordload', inst, st, wc=wc, instance=instance, ord=inst.ord, entry=self.entry_name), ('wl', inst.fn.name, inst.id, st.stack()))
                 return None
             regs[inst.id] = self.atomic_load_other(st, f, inst, p)
             return None
@@ -810,7 +832,13 @@ class Engine:
                         st.nn.add(gv)
                     return None
             if (p in st.mem):
-                regs[inst.id] = st.mem[p]
+                v = st.mem[p]
+                if v is TOP and ty.endswith('*'):
+                    # name the unknown pointer so that a later NULL test refines the cell as well
+                    v = Ptr('ld:%s:%s' % (f.fn.name, inst.id), ())
+                    st.nn.discard(v)
+                    st.mem[p] = v
+                regs[inst.id] = v
                 return None
         if ty.endswith('*'):
             sp = Ptr('ld:%s:%s' % (f.fn.name, inst.id), ())
@@ -1145,7 +1173,7 @@ class Engine:
             regs = {}
             for a, v in zip(target.args, args):
                 regs[a['id']] = v
-            key = self.memo_key(st, callee, args) if callee not in self.no_memo else None
+            key = self.memo_key(st, callee, args) if self.memoizable(callee) else None
             if key is None:
                 st.frames.append(Frame(target, target.entry.id, 0, None, regs, inst, depth))
                 return [st]
@@ -1198,6 +1226,9 @@ class Engine:
         return base.startswith(self.PRIVATE_BASES) and base not in bases
 
     CALLER_ONLY_GHOST = ()
+
+    def memoizable(self, callee):
+        return callee not in self.no_memo
 
     def _ghost_framed(self, k, bases):
         if isinstance(k, tuple) and len(k) == 3 and isinstance(k[2], Ptr) and self._framed(k[2].base, bases):
